@@ -16,6 +16,7 @@ are the ones of the property text:
                    as it is, and every un-binarized rule, of a binarized grammar)
   file_counts_*    the count field of the written files is that sum
 """
+import copy
 import os
 from vlib import tg
 from bounded.common import Skip
@@ -23,7 +24,9 @@ from bounded import lib_grammar as L
 
 RULE = ("treebanks ordered by size: every tree with <=3 tokens over labels {S,NP} with up to 2 inserted unary "
         "nodes (so that the same rule occurs under different parents), all shapes n<=N with uniform / cyclic "
-        "labels, each alone and doubled, all pairs of the smallest trees, seeded pairs / triples of the rest, "
+        "labels, each alone and doubled, all pairs of the smallest trees, every discontinuous one of these trees "
+        "together with its continuous twin (same labels and dominance, tokens renumbered depth first: the same "
+        "rules under ancestors with the same label but another fan-out), seeded pairs / triples of the rest, "
         "random treebanks; x grammar types {treebank, leftright, optimal} x {deterministic, Markov v,h in 0..3 "
         "with/without nofanout}.  Non-trivial = some rule occurs more than once or in more than one vertical "
         "context (key = treebank + configuration)")
@@ -292,6 +295,39 @@ def shape_trees(max_n, rng):
     return out
 
 
+def _discontinuous(spec):
+    return any(tg.gap_degree_of_set([l["n"] for l in tg.spec_leaves(s)]) > 0 for s, _ in tg.spec_nodes(spec))
+
+
+def continuous_twin(spec):
+    """the same tree (labels, dominance, order of the children by their first token) with the tokens
+    renumbered depth first, so that every node is continuous: every bare production of `spec` occurs
+    in the twin as well, under ancestors with the same labels but fan-out 1"""
+    twin = copy.deepcopy(spec)
+    counter = [0]
+
+    def rec(s):
+        if tg.is_leaf_spec(s):
+            counter[0] += 1
+            return
+        s["c"].sort(key=lambda c: min(l["n"] for l in tg.spec_leaves(c)))
+        for c in s["c"]:
+            rec(c)
+    rec(twin)
+    order = []
+
+    def leaves(s):
+        if tg.is_leaf_spec(s):
+            order.append(s)
+        else:
+            for c in s["c"]:
+                leaves(c)
+    leaves(twin)
+    for i, l in enumerate(order):
+        l["n"] = i + 1
+    return twin
+
+
 def treebanks(ctx):
     b = BOUNDS(ctx)
     rng = ctx.rng
@@ -299,6 +335,15 @@ def treebanks(ctx):
     big = shape_trees(b["shapes_n"], rng)
     for t in tiny:
         yield True, [t]
+    # "a rule observed in several vertical contexts contributes the sum": contexts that differ only
+    # in the fan-out of an ancestor (they fall together under nofanout) -- every discontinuous tiny
+    # tree with its continuous twin, in both orders and with unequal multiplicities
+    for t in tiny:
+        if _discontinuous(t):
+            twin = continuous_twin(t)
+            yield True, [t, twin]
+            yield True, [twin, t]
+            yield True, [t, twin, t]
     k = b["small_pairs_from"]
     for i in range(min(k, len(tiny))):
         for j in range(i, min(k, len(tiny))):
@@ -306,6 +351,8 @@ def treebanks(ctx):
     for t in big:
         yield False, [t]
         yield False, [t, t]
+        if _discontinuous(t):
+            yield False, [t, continuous_twin(t)]
     pool = tiny + big
     for _ in range(b["seeded_tuples"]):
         n = rng.choice((2, 3))
